@@ -58,6 +58,10 @@ def simp(c):
         m, k = simp(c.m), simp(c.k)
         if isinstance(k, Ret) and isinstance(m, Op) and ((c.x is not None and k.p == c.x) or (c.x is None and k.p == "tt")):
             return m
+        # q <- m ;; let b := snd q in ret (fst q, b)  ==>  m     (surjective pairing, then right identity)
+        if (c.x is not None and isinstance(m, Op) and isinstance(k, Let) and k.p == "(snd %s)" % c.x and isinstance(k.k, Ret)
+                and k.k.p == "((fst %s), %s)" % (c.x, k.x)):
+            return m
         # x <- m ;; match x with Some v => ret (Some v) | None => ret None end  ==>  m     (eta for option, then right identity)
         if (c.x is not None and isinstance(k, Match) and k.scrut == c.x and len(k.arms) == 2 and isinstance(m, Op)
                 and all(isinstance(b, Ret) for _, b in k.arms)):
@@ -255,6 +259,14 @@ class Fn:
         s.generics = tuple(re.findall(r"\b([A-Z][A-Za-z0-9]*)\b\s*(?::|,|>)", fn["generics"])) + tuple(re.findall(r"\b([A-Z])\b", fn["generics"]))
 
     # ---- helpers
+    def scoped(s, f):
+        """run f() and undo what it did to the local environment (a branch cannot leak bindings)"""
+        env, sub = dict(s.env), dict(s.sub)
+        try:
+            return f()
+        finally:
+            s.env, s.sub = env, sub
+
     def fresh(s, base):
         s.n += 1
         return "%s_%d" % (base, s.n)
@@ -264,6 +276,8 @@ class Fn:
 
     def wrap_ret(s, v):
         """value returned by the function = (v, out1, out2..) for in/out parameters"""
+        if s.cfg.get("ret_repr"):
+            v = "%s %s" % (s.cfg["ret_repr"][0], paren(v))
         if not s.outs:
             return v
         return "(%s)" % ", ".join([v] + [s.sub.get(o, o) for o in s.outs])
@@ -466,7 +480,7 @@ class Fn:
         outer_mode = s.ret_mode
         outer_vars = s.maybe_vars
         s.ret_mode, s.maybe_vars = "maybe", tuple(vars_)
-        inner = s.expr(e, K(lambda a, t: Ret(s.maybe_fall()), cheap=True))
+        inner = s.scoped(lambda: s.expr(e, K(lambda a, t: Ret(s.maybe_fall()), cheap=True)))
         s.ret_mode, s.maybe_vars = saved
         kn = s.fresh("k")
         r = s.fresh("r")
@@ -502,7 +516,8 @@ class Fn:
                     saved = (s.ret_mode, s.maybe_vars)
                     outer = s.ret_mode
                     s.ret_mode, s.maybe_vars = "maybe", ()
-                    body = s.seq(e["body"], 0, K(lambda a, t: Ret("None"), cheap=True))
+                    body = s.scoped(lambda: s.seq(e["body"], 0, K(lambda a, t: Ret("None"), cheap=True)))
+                    s.env[n] = "usize"
                     s.ret_mode, s.maybe_vars = saved
                     b = s.fresh("brk")
                     v = s.fresh("v")
@@ -594,7 +609,7 @@ class Fn:
         op = e["op"]
         if op in ("&&", "||"):
             def with_l(a, _t):
-                rc = s.expr(e["r"], K(lambda b, t: Ret(b), cheap=True))
+                rc = s.scoped(lambda: s.expr(e["r"], K(lambda b, t: Ret(b), cheap=True)))
                 if is_pure(rc):
                     return k("(%s %s %s)" % (paren(a), op, paren(rc.p)), "bool")
                 v = s.fresh("and" if op == "&&" else "or")
@@ -726,8 +741,8 @@ class Fn:
             return s.e_Match({"k": "Match", "e": c["e"], "arms": arms}, k, hint, stmt_fall)
         def with_c(a, _t):
             def build(kb):
-                th = s.seq(e["then"], 0, kb)
-                el = s.expr(e["else"], kb) if e["else"] else kb("tt", "unit")
+                th = s.scoped(lambda: s.seq(e["then"], 0, kb))
+                el = s.scoped(lambda: s.expr(e["else"], kb) if e["else"] else kb("tt", "unit"))
                 return If(a, th, el)
             return s.join(k, build, hint, "ite")
         return s.expr(c, K(with_c))
@@ -774,12 +789,12 @@ class Fn:
             if not cands:
                 raise Unsupported("non-exhaustive match for " + cn)
             if ptys:
-                pv = s.payload_pattern(cands, ptys[0])
-                pat_txt, binder = pv
-                body = s.arm_chain(cands, binder, ptys[0], kb)
-                out.append(("%s %s" % (cn, pat_txt), body))
+                def one(cands=cands, ptys=ptys, cn=cn):
+                    pat_txt, binder = s.payload_pattern(cands, ptys[0])
+                    return ("%s %s" % (cn, pat_txt), s.arm_chain(cands, binder, ptys[0], kb))
+                out.append(s.scoped(one))
             else:
-                out.append((cn, s.arm_chain(cands, None, None, kb)))
+                out.append((cn, s.scoped(lambda cands=cands: s.arm_chain(cands, None, None, kb))))
         if t == ("hasreader",):
             return If(a, out[0][1], out[1][1])
         return Match(a, out)
@@ -824,7 +839,7 @@ class Fn:
     def arm_chain(s, cands, binder, pty, kb):
         arm, sub = cands[0]
         def body():
-            return s.expr(arm["body"], kb)
+            return s.scoped(lambda: s.expr(arm["body"], kb))
         if binder is None or binder[0] == "direct":
             if sub is None and arm["pat"]["k"] == "Ident" and binder is not None:
                 raise Unsupported("catch-all binding in direct mode")
@@ -869,7 +884,7 @@ class Fn:
         outs = [i for i, (a, t) in enumerate(argvals) if t and t[0] in ("mslice", "alias")]
         txt = " ".join([sig.coqname] + ([sig.section_args] if sig.section_args else []) + [paren(s.arg_value(a, t)) for a, t in argvals])
         txt = txt.strip()
-        if sig.world == "self" :
+        if sig.world == "self":
             txt = s.lift(txt)
         if sig.pure:
             return k("(" + txt + ")" if " " in txt else txt, sig.ret)
@@ -1103,7 +1118,7 @@ CALLS = {
 # ------------------------------------------------------------------------------------------ driver
 class Translator:
     def __init__(s, ast):
-        s.files = {os.path.basename(f["file"]): f["items"] for f in ast}
+        s.files = {"/".join(f["file"].split("/")[-3:]): f["items"] for f in ast}
         s.free_fns = {}
         s.reserved = set()
         s.from_impls = {}
